@@ -21,6 +21,9 @@
                           op = (0 #raw) | (1 #selector (filter ...)); filter = (0 first count) | (1 mode #cutset) | (2 mode #cutset)
                           the harness prints the substitution in the documented syntax; the second list of
                           the observation = the parsed selector of every field op, in order
+     41 modify Do, ONE instance over several events (its buffers are reused: long then short values)
+                          case (skipEmpty #target (op ...) (tree ...))  obs ((#seg ...) ((#seg ...) ...) (out ...))
+                          every (tree, out) pair is judged as a case of 40; the first verdict that is not Agree is the answer
    No proofs here.
    >>> which >= 50 (processor-level time-out delivery) is added by the coordinator in c13_entry; the
    >>> default branch below answers BadCase. *)
@@ -220,6 +223,24 @@ Definition modify_run (case obs : sx) : verdict :=
   | _, _ => BadCase
   end.
 
+(* 41: pure glue over modify_run (the model is a function of the event only: an instance has no state
+   that may show in its output) *)
+Fixpoint modify_seq_fold (se tgt ops tp fps : sx) (trees outs : list sx) : verdict :=
+  match trees, outs with
+  | [], [] => Agree
+  | t :: ts, o :: os =>
+      match modify_run (SL [se; tgt; ops; t]) (SL [tp; fps; o]) with
+      | Agree => modify_seq_fold se tgt ops tp fps ts os
+      | v => v
+      end
+  | _, _ => BadCase
+  end.
+Definition modify_seq_run (case obs : sx) : verdict :=
+  match case, obs with
+  | SL [se; tgt; ops; SL trees], SL [tp; fps; SL outs] => modify_seq_fold se tgt ops tp fps trees outs
+  | _, _ => BadCase
+  end.
+
 Definition c13_actions_entry (which : Z) (case obs : sx) : verdict :=
   if (0 <=? which) && (which <? 30) then generic_run case obs else
   match which with
@@ -234,6 +255,7 @@ Definition c13_actions_entry (which : Z) (case obs : sx) : verdict :=
   | 38 => extract_run case obs
   | 39 => hash_run case obs
   | 40 => modify_run case obs
+  | 41 => modify_seq_run case obs
   (* >>> coordinator: which >= 50 = processor-level time-out delivery goes here <<< *)
   | _ => BadCase
   end.
